@@ -67,8 +67,11 @@ def run_cases(progs, R=None, label="scan", plugins=("Plugins.All", "all_plugins"
         o["filter"] = effective_filter(mgr)
         o.pop("mgr", None)
         outs.append(o)
-        if o["skipped"]:
-            cases.append(None)     # not a parsed program: nothing for the visitor model to say
+        if o["skipped"] or p.get("no_model"):
+            # not a parsed program: nothing for the visitor model to say; or a program the model is not asked about (inputs
+            # on which evaluating the model is impractical - kilobyte literals through the regex model - are judged by
+            # the statement-level oracle alone)
+            cases.append(None)
             continue
         try:
             tree = ast.parse(data)
